@@ -72,8 +72,8 @@ static void exec_twin(const Json &plan, RunResult &rr, Hist &h)
 static Json gen_twin(Rng &r0, const std::string &focus, int tier)
 {
         Rng r(r0.u64(), "twin.plan");
-        static const Profile *inners[] = { &prof_deflate, &prof_deflate, &prof_oneshot, &prof_inflate, &prof_inflate, &prof_hdr };
-        const Profile *p = inners[r.below(6)];
+        static const Profile *inners[] = { &prof_deflate, &prof_deflate, &prof_oneshot, &prof_inflate, &prof_inflate, &prof_hdr, &prof_kern };
+        const Profile *p = inners[r.below(7)];
         Json inner = p->gen(r0, focus, tier);
         Json plan = Json::obj();
         plan.set("prof", "twin").set("focus", focus);
@@ -184,7 +184,8 @@ struct Reuse {
                 size_t pos = 0;
                 if (chunk == 0)
                         chunk = 1;
-                while (pos < stop_at || st->avail_in) {
+                bool sink_was_full = false; // all input taken but the last call filled its output: more is pending inside the decoder
+                while (pos < stop_at || st->avail_in || sink_was_full) {
                         size_t n = std::min<size_t>(chunk, stop_at - pos);
                         Slot *si = g_arena.alloc(st->avail_in + n, PLACE_END, "in_chunk", 0, 1), *so = g_arena.alloc(70000, PLACE_END, "out_chunk", 5, 1);
                         if (!si || !so)
@@ -214,6 +215,7 @@ struct Reuse {
                         g_arena.release(so);
                         if (ret < 0 || st->block_state == ISAL_BLOCK_FINISH)
                                 break;
+                        sink_was_full = st->avail_out == 0;
                         if (n == 0 && st->avail_out > 0)
                                 break;
                 }
@@ -362,7 +364,7 @@ struct Reuse {
         void run()
         {
                 uint64_t fill = (uint64_t) plan.at("mem").geti("fill");
-                int how = (int) ((uint64_t) plan.geti("how") % 5); // 0 deflate_reset, 1 deflate_init again, 2 inflate_reset, 3 inflate_init again, 4 one-shot chain
+                int how = (int) ((uint64_t) plan.geti("how") % 6); // 0 deflate_reset, 1 deflate_init again, 2 inflate_reset, 3 inflate_init again, 4 one-shot chain, 5 one-shot decode on a used state
                 if (how == 4) {
                         Params a = params(plan.at("a")), b = params(plan.at("b"));
                         h.rec("reuse", { how, a.level, b.level, (int64_t) a.data.size(), (int64_t) b.data.size(), plan.geti("between") });
@@ -475,8 +477,61 @@ struct Reuse {
                         report_fault(rr, h, gc.fi, "isal_inflate_init");
                         return;
                 }
-                if (!inflate(st1, ma, sa, chunk, a.abandon ? sa.size() / 2 : sa.size(), oa, ta))
+                size_t stop_a = a.abandon ? sa.size() / 2 : sa.size();
+                if (how == 5 && (plan.geti("cut") & 1) && sa.size() > 12)
+                        stop_a = sa.size() - 1 - (size_t) ((uint64_t) (plan.geti("cut") >> 1) % 11); // abandoned inside the trailer / the last block
+                if (!inflate(st1, ma, sa, chunk, stop_a, oa, ta))
                         return;
+                if (how == 5) {
+                        // isal_inflate_stateless sets every field it depends on itself: called on a state that a streaming session left in any
+                        // condition (no reset, no init) it must behave as on a freshly initialised one
+                        int osmode = (int) ((uint64_t) plan.geti("osmode") % 3);
+                        std::vector<uint8_t> in = sb;
+                        int m = mb;
+                        size_t hl = mb == ISAL_GZIP ? 10 : mb == ISAL_ZLIB ? 2 : 0;
+                        if (osmode && hl && in.size() > hl && !gram_b) {
+                                in.erase(in.begin(), in.begin() + hl);
+                                m = mb == ISAL_GZIP ? (osmode == 1 ? ISAL_GZIP_NO_HDR_VER : ISAL_GZIP_NO_HDR) : (osmode == 1 ? ISAL_ZLIB_NO_HDR_VER : ISAL_ZLIB_NO_HDR);
+                        }
+                        if (plan.geti("cut") & 64 && in.size() > 4) // and now and then a trailer that does not match
+                                in[in.size() - 1 - (size_t) ((uint64_t) (plan.geti("cut") >> 7) % 4)] ^= 0x40;
+                        auto oneshot = [&](struct inflate_state *st, std::vector<uint8_t> &out, int &ret, uint32_t &crc) {
+                                Slot *si = g_arena.alloc(in.size(), PLACE_END, "os_in", 0, 1), *so = g_arena.alloc(b.data.size() + 64, PLACE_END, "os_out", fill + 50, 1);
+                                if (!si || !so)
+                                        return false;
+                                memcpy(si->data, in.data(), in.size());
+                                st->crc_flag = m;
+                                st->next_in = si->data;
+                                st->avail_in = (uint32_t) in.size();
+                                st->next_out = so->data;
+                                st->avail_out = (uint32_t) so->len;
+                                h.calls++;
+                                if (GUARDED(gc, ret = isal_inflate_stateless(st))) {
+                                        report_fault(rr, h, gc.fi, "isal_inflate_stateless (state used before, not reset)");
+                                        return false;
+                                }
+                                if (ret >= 0)
+                                        out.assign(so->data, so->data + (so->len - st->avail_out));
+                                crc = ret == 0 ? st->crc : 0;
+                                g_arena.release(si);
+                                g_arena.release(so);
+                                return true;
+                        };
+                        int r1 = 0, r2 = 0;
+                        uint32_t c1 = 0, c2 = 0;
+                        COUNT("mem.oneshot_decode_on_used_state");
+                        if (!oneshot(st1, ob1, r1, c1))
+                                return;
+                        isal_inflate_init(st2);
+                        if (!oneshot(st2, ob2, r2, c2))
+                                return;
+                        h.rec("reuse_end", { r1, r2, (int64_t) ob1.size(), (int64_t) hash_bytes(ob2.data(), ob2.size()), m });
+                        if ((r1 != r2 || ob1 != ob2 || c1 != c2) && m != ISAL_DEFLATE && m != ISAL_GZIP_NO_HDR && m != ISAL_ZLIB_NO_HDR)
+                                rr.alt = "C11"; // a verifying mode whose verdict depends on what the state was used for before
+                        if (r1 != r2 || ob1 != ob2 || c1 != c2)
+                                rr.fail("C15.reuse_differs", strf("one-shot decompression of a %zu-byte stream (mode %d) on a state a streaming session had used before (stopped after %zu of %zu bytes, no reset): returns %d with %zu bytes / crc %08x; on a freshly initialised state %d with %zu bytes / crc %08x", in.size(), m, stop_a, sa.size(), r1, ob1.size(), c1, r2, ob2.size(), c2));
+                        return;
+                }
                 if (GUARDED(gc, {
                             if (how == 2)
                                     isal_inflate_reset(st1);
@@ -514,7 +569,7 @@ static Json gen_reuse(Rng &r0, const std::string &focus, int tier)
 {
         Rng r(r0.u64(), "reuse.plan");
         Json p = Json::obj();
-        p.set("prof", "reuse").set("focus", focus).set("how", focus == "C10" ? 4 : (int) r.below(5)).set("ichunk", (int) r.logsize(5000)).set("between", r.chance(1, 2) ? 0 : (int) r.below(4));
+        p.set("prof", "reuse").set("focus", focus).set("how", focus == "C10" ? 4 : focus == "C11" ? 5 : (int) r.below(6)).set("cut", (int) r.below(1 << 10)).set("osmode", (int) r.below(3)).set("ichunk", (int) r.logsize(5000)).set("between", r.chance(1, 2) ? 0 : (int) r.below(4));
         for (const char *nm : { "a", "b" }) {
                 Json j = Json::obj();
                 j.set("level", (int) r.below(4)).set("wrap", (int) r.below(5)).set("hb", (int) (r.chance(1, 2) ? 0 : 9 + r.below(7))).set("fl", (int) r.below(4));
